@@ -1185,7 +1185,7 @@ func Run(tier, replay string) {
 		emit("exhaustive", map[string]string{"MaxBlocks": "1", "MaxInsts": "2"}, "", 0)
 		emit("forms", map[string]string{"Kinds": `{"func"}`, "MaxBlocks": "1", "MaxInsts": "1", "Forms": otherForms}, "", 0)
 		emit("numerals", map[string]string{"MaxBlocks": "1", "MaxInsts": "1", "MaxSrc": "3", "NameStyles": `{"numeral"}`}, "", 0)
-		emit("random", map[string]string{"Kinds": `{"func"}`, "MaxBlocks": "3", "MaxInsts": "2", "Forms": allForms, "NameStyles": bothNames}, "num=14", 5)
+		emit("random", map[string]string{"Kinds": `{"func"}`, "MaxBlocks": "3", "MaxInsts": "2", "Forms": allForms, "NameStyles": bothNames}, "num=10", 5)
 	} else {
 		emit("exhaustive", map[string]string{"MaxBlocks": "2", "MaxInsts": "1", "Forms": `{"short", "long"}`}, "", 0)
 		emit("exhaustive1", map[string]string{"Kinds": `{"func"}`, "MaxBlocks": "1", "MaxInsts": "2", "Forms": allForms}, "", 0)
